@@ -40,7 +40,7 @@ Pos(i, n) == IF i < 0 THEN i + n + 1 ELSE i + 1
 Reuses == {"n", "p", "d"}
 ReOk(re, i, ik, j, jk) ==
     CASE re = "n" -> TRUE
-      [] re = "p" -> ik = "s" /\ hist # <<>> /\ hist[Len(hist)].ik = "s" /\ hist[Len(hist)].i = i /\ hist[Len(hist)].a # "copyrow"
+      [] re = "p" -> ik = "s" /\ hist # <<>> /\ hist[Len(hist)].ik = "s" /\ hist[Len(hist)].i = i /\ hist[Len(hist)].a \notin {"copyrow", "copyrow2"}
       [] re = "d" -> ik = "s" /\ jk = "s" /\ i = j
 
 Log(a) == hist' = Append(hist, a) /\ arr0' = arr0
@@ -105,6 +105,14 @@ CopyRow(dst, src, sk) ==
     /\ last' = IF Valid(src, sk, Len(arr)) THEN Ok(<<>>) ELSE Raise
     /\ Log(Rec("copyrow", dst, "p", src, sk, 0, "n"))
 
+\* m[0] = m[1] = r with r = m[src] read ONCE: the very same row object is stored at two positions; the rows must still be
+\* independent afterwards (a later write to one of them leaves the other alone)
+CopyRowBoth(src, sk) ==
+    /\ dim = 2 /\ dim' = dim /\ brr' = brr
+    /\ arr' = IF Valid(src, sk, Len(arr)) THEN [arr EXCEPT ![1] = arr[Pos(src, Len(arr))], ![2] = arr[Pos(src, Len(arr))]] ELSE arr
+    /\ last' = IF Valid(src, sk, Len(arr)) THEN Ok(<<>>) ELSE Raise
+    /\ Log(Rec("copyrow2", 0, "p", src, sk, 0, "n"))
+
 Step == \/ \E i \in -1..3, k \in Kinds, re \in Reuses : Get1(i, k, re) \/ GetRow(i, k, re) \/ GetB(i, k, re)
         \/ \E i \in -1..3, k \in Kinds, v \in Vals, re \in Reuses : Set1(i, k, v, re, -1)
         \/ \E i \in -1..3, k \in Kinds, re \in Reuses, c \in {0, 1} : Set1(i, k, 7, re, c)
@@ -114,6 +122,7 @@ Step == \/ \E i \in -1..3, k \in Kinds, re \in Reuses : Get1(i, k, re) \/ GetRow
         \* (a row read at a PUBLIC position is the row object itself -- Python aliasing, not modelled; a row read at a
         \*  secret position is a fresh selection of values)
         \/ \E d \in 0..1, s \in -1..2 : CopyRow(d, s, "s")
+        \/ \E s \in 0..2 : CopyRowBoth(s, "s")
 
 \* an access that raises INSIDE an open branch ends the history: the block API has no way to abandon an open block, a program
 \* cannot catch the error and go on with the same context
@@ -128,7 +137,7 @@ Flat(s) == IF s = <<>> THEN <<>> ELSE (IF dim = 1 THEN <<Head(s)>> ELSE Head(s))
 DiffCount(s, t) == LET n == Len(s) IN IF n # Len(t) THEN 99 ELSE
                    LET D == {k \in 1..n : s[k] # t[k]} IN IF D = {} THEN 0 ELSE IF \E k \in D : D = {k} THEN 1 ELSE 2
 Cells == Flat(arr) \o (IF dim = 1 THEN brr ELSE <<>>)
-WriteOne == [][(hist' # hist /\ hist'[Len(hist')].a # "copyrow") => DiffCount(Flat(arr) \o brr, Flat(arr') \o brr') <= 1]_vars
+WriteOne == [][(hist' # hist /\ hist'[Len(hist')].a \notin {"copyrow", "copyrow2"}) => DiffCount(Flat(arr) \o brr, Flat(arr') \o brr') <= 1]_vars
 
 \* generator: every history of exactly MaxLen accesses, with the initial array, once
 Emit == (Len(hist) = MaxLen) => PrintT(<<"BEH", ToJson([dim |-> dim, arr0 |-> arr0, hist |-> hist])>>)
